@@ -337,7 +337,9 @@ _LIB = treg.img_composite(depth=3, allow_scheduled=True)
 # mostly library transforms; sometimes a user-written transform that uses the documented per-worker hook, alone or inside a composition
 _USER = st.just({"k": "user_hook"})
 WITHSCHED = st.one_of(_LIB, _LIB, _LIB, _LIB, _USER, st.tuples(_LIB, st.booleans()).map(
-    lambda t: {"k": "compose", "m": ([t[0], {"k": "user_hook"}] if t[1] else [{"k": "user_hook"}, t[0]])}))
+    lambda t: {"k": "compose", "m": ([t[0], {"k": "user_hook"}] if t[1] else [{"k": "user_hook"}, t[0]])}),
+    # a plain callable (torchvision transform, lambda) before / after a library member of a composition
+    st.tuples(_LIB, st.booleans()).map(lambda t: {"k": "compose", "m": ([{"k": "plain"}, t[0]] if t[1] else [t[0], {"k": "plain"}, t[0]])}))
 
 
 @st.composite
